@@ -290,7 +290,7 @@ impl StepHandler for H16 {
         };
         if !consistent {
             // `*ESE` / `*SRE` accept 0..255 (and nothing else)
-            if let Some(fu) = pred.fail_unit {
+            if let Some(fu) = pred.fail_unit.filter(|f| *f == 0) {
                 if let Some(c @ (Contrib::Ese | Contrib::Sre)) = unit_contrib(world, s, fu) {
                     if !s.msg.units[fu].query && pred.result == Err(ExpErr::ExecClass) {
                         let sig = match &o.result {
@@ -314,6 +314,21 @@ impl StepHandler for H16 {
                         return;
                     }
                 }
+            }
+            // a message made only of mandated commands whose outcome the statement fixes
+            if let Some(cmds) = pure_contrib(world, s) {
+                let first = cmds.first().map(|c| format!("{:?}", c)).unwrap_or_default();
+                let code = match &o.result {
+                    Ok(()) => "ok".to_string(),
+                    Err(e) => format!("{}", e.code).replace('-', "m"),
+                };
+                out.push(Finding::new(
+                    "C16.command_result",
+                    format!("{}_message_returned_{}_expected_{}", first.split('(').next().unwrap_or(""), code, match &pred.result { Ok(()) => "ok".to_string(), Err(e) => crate::props::structural::short_exp(e) }),
+                    i,
+                    format!("{} returned {:?}, expected {:?} (self-test code {}, unit {:?})", describe_msg(s), o.result, pred.result.as_ref().map_err(|e| e.describe()), before.tst_code, pred.fail_unit),
+                ));
+                return;
             }
             stats.bump("skipped_result_not_as_predicted");
             return;
